@@ -53,7 +53,7 @@ func runC18(c *Ctx) {
 				return
 			}
 			if tn, fld, _, ok := flow.FieldOf(bo.X); ok && tn == "Data" && fld == "Type" {
-				if _, isConst := bo.Y.(*ssa.Const); isConst && usesReflectTypeOf(f) {
+				if _, isConst := bo.Y.(*ssa.Const); isConst && (usesReflectTypeOf(f) || c.callsTypeSwitchHelper(f)) {
 					mf, tag = f, bo.X
 				}
 			}
@@ -67,38 +67,60 @@ func runC18(c *Ctx) {
 	// cases
 	cases := map[string]types.Type{} // const -> target type (nil if none)
 	caseAt := map[string]ssa.Instruction{}
-	for _, b := range mf.Blocks {
-		ifi, ok := b.Instrs[len(b.Instrs)-1].(*ssa.If)
-		if !ok {
+	// the switch may be split: helpers of mf that receive the type id and switch on it contribute their cases
+	type swFn struct {
+		f   *ssa.Function
+		tag ssa.Value
+	}
+	sws := []swFn{{mf, tag}}
+	for _, ci := range flow.CallInstrs(mf) {
+		h := flow.StaticCallee(ci)
+		if h == nil || h.Blocks == nil || pkgOf(h) == nil || pkgOf(h).Path() != pkgDiam {
 			continue
 		}
-		bo, ok := ifi.Cond.(*ssa.BinOp)
-		if !ok || bo.Op != token.EQL || bo.X != tag {
-			continue
+		for i, a := range ci.Common().Args {
+			if i < len(h.Params) && flow.TypeIs(a.Type(), pkgDatatype, "TypeID") {
+				if tn, fld, _, ok := flow.FieldOf(flow.Peel(a)); ok && tn == "Data" && fld == "Type" {
+					sws = append(sws, swFn{h, h.Params[i]})
+				}
+			}
 		}
-		k, ok := bo.Y.(*ssa.Const)
-		if !ok {
-			continue
-		}
-		ks := k.Value.ExactString()
-		caseAt[ks] = ifi
-		cases[ks] = nil
-		// first reflect.TypeOf in the blocks dominated by the true edge
-		for _, x := range mf.Blocks {
-			if !flow.EdgeDominates(b, 0, x) && x != b.Succs[0] {
+	}
+	for _, sw := range sws {
+		mf, tag := sw.f, sw.tag
+		for _, b := range mf.Blocks {
+			ifi, ok := b.Instrs[len(b.Instrs)-1].(*ssa.If)
+			if !ok {
 				continue
 			}
-			for _, in := range x.Instrs {
-				call, ok := in.(*ssa.Call)
-				if !ok || !flow.IsCallTo(call, "reflect", "", "TypeOf") {
+			bo, ok := ifi.Cond.(*ssa.BinOp)
+			if !ok || bo.Op != token.EQL || flow.Peel(bo.X) != flow.Peel(tag) {
+				continue
+			}
+			k, ok := bo.Y.(*ssa.Const)
+			if !ok {
+				continue
+			}
+			ks := k.Value.ExactString()
+			caseAt[ks] = ifi
+			cases[ks] = nil
+			// first reflect.TypeOf in the blocks dominated by the true edge
+			for _, x := range mf.Blocks {
+				if !flow.EdgeDominates(b, 0, x) && x != b.Succs[0] {
 					continue
 				}
-				mi, ok := call.Call.Args[0].(*ssa.MakeInterface)
-				if !ok {
-					continue
-				}
-				if p, ok := mi.X.Type().(*types.Pointer); ok && cases[ks] == nil {
-					cases[ks] = p.Elem()
+				for _, in := range x.Instrs {
+					call, ok := in.(*ssa.Call)
+					if !ok || !flow.IsCallTo(call, "reflect", "", "TypeOf") {
+						continue
+					}
+					mi, ok := call.Call.Args[0].(*ssa.MakeInterface)
+					if !ok {
+						continue
+					}
+					if p, ok := mi.X.Type().(*types.Pointer); ok && cases[ks] == nil {
+						cases[ks] = p.Elem()
+					}
 				}
 			}
 		}
@@ -162,6 +184,32 @@ func runC18(c *Ctx) {
 			}
 		}
 	})
+	litFn := mf
+	if dictParam != nil && avpAlloc == nil {
+		// the AVP may be built by a helper that is handed the dictionary AVP
+		for _, ci := range flow.CallInstrs(mf) {
+			h := flow.StaticCallee(ci)
+			if h == nil || h.Blocks == nil || pkgOf(h) == nil || pkgOf(h).Path() != pkgDiam {
+				continue
+			}
+			for i, a := range ci.Common().Args {
+				if flow.Peel(a) != ssa.Value(dictParam) || i >= len(h.Params) {
+					continue
+				}
+				flow.Instrs(h, func(in ssa.Instruction) {
+					if al, ok := in.(*ssa.Alloc); ok && al.Heap && flow.TypeIs(al.Type(), pkgDiam, "AVP") {
+						for _, ref := range flow.Referrers(al) {
+							if fa, ok := ref.(*ssa.FieldAddr); ok {
+								if _, fld, _, _ := flow.FieldOf(fa); fld == "Code" {
+									avpAlloc, litFn, dictParam = al, h, h.Params[i]
+								}
+							}
+						}
+					}
+				})
+			}
+		}
+	}
 	if dictParam == nil || avpAlloc == nil {
 		r.Undecided("R2", fname(mf)+":produced-avp", c.fpos(mf), "cannot find the AVP literal built from the dictionary AVP")
 	} else {
@@ -193,7 +241,7 @@ func runC18(c *Ctx) {
 		if st := stores["Flags"]; st == nil {
 			r.Fail("R2", key, c.pos(avpAlloc), "the produced AVP's Flags are never set")
 		} else {
-			good, why := c.c18Flags(mf, st.Val, dictParam)
+			good, why := c.c18Flags(litFn, st.Val, dictParam)
 			r.Check(good, "R2", key, c.pos(st), "Flags = (Mbit if Must contains \"M\") | (Vbit if VendorID > 0), nothing else", why)
 		}
 	}
@@ -485,4 +533,21 @@ func (c *Ctx) c18Flags(f *ssa.Function, v ssa.Value, dictParam *ssa.Parameter) (
 		return false, "the V flag is never set for vendor-specific AVPs"
 	}
 	return true, ""
+}
+
+// callsTypeSwitchHelper: f hands a dictionary AVP's Data.Type to a package-local function that maps type ids
+// to reflect types.
+func (c *Ctx) callsTypeSwitchHelper(f *ssa.Function) bool {
+	for _, ci := range flow.CallInstrs(f) {
+		h := flow.StaticCallee(ci)
+		if h == nil || h.Blocks == nil || pkgOf(h) == nil || pkgOf(h).Path() != pkgDiam || !usesReflectTypeOf(h) {
+			continue
+		}
+		for _, a := range ci.Common().Args {
+			if flow.TypeIs(a.Type(), pkgDatatype, "TypeID") {
+				return true
+			}
+		}
+	}
+	return false
 }
